@@ -3,6 +3,7 @@ package c19
 import (
 	"fmt"
 	"math"
+	"os"
 	"sort"
 	"strings"
 
@@ -19,6 +20,7 @@ type obsEvent struct {
 	kind  string
 	rgba  [4]int
 	cs    []oracle.Contour // the recorded path, flattened in its own coordinates
+	junc  [][]bool         // which flattened points are junctions between path commands (joins apply there)
 	inv   [6]float64       // inverse of the recorded matrix (canvas mm -> path coordinates)
 	invOK bool
 	rule  canvas.FillRule
@@ -50,12 +52,13 @@ func observe(c *canvas.Canvas) ([]obsEvent, string) {
 		if ev.Kind != "path" {
 			return out, "unexpected-" + ev.Kind + "-layer"
 		}
-		cs, err := oracle.FlattenData(ev.Data, 96)
+		segs, err := oracle.Decode(ev.Data)
 		if err != nil {
 			return out, "path-undecodable"
 		}
+		cs, junc := oracle.FlattenJunctions(segs, 96)
 		inv, ok := invert(ev.M)
-		base := obsEvent{cs: cs, inv: inv, invOK: ok, rule: ev.Style.FillRule, path: ev.Path.String(), layer: li}
+		base := obsEvent{cs: cs, junc: junc, inv: inv, invOK: ok, rule: ev.Style.FillRule, path: ev.Path.String(), layer: li}
 		if ev.Style.HasFill() {
 			e := base
 			e.kind = "fill"
@@ -120,7 +123,7 @@ func (o *obsEvent) covers(p oracle.Pt) bool {
 		}
 		return w != 0
 	}
-	return oracle.InStroke(o.cs, o.st, q)
+	return oracle.InStrokeJunctions(o.cs, o.junc, o.st, q)
 }
 
 // cellDiff returns the number of decided cells that disagree and the first of them (-1 if none).
@@ -210,13 +213,13 @@ func precedenceSig(prefix, prop string, haz []string, isCand bool) string {
 
 // docFeatSuffix: the dominant feature (computed by the spec) of the document / drawing / outline that a region deviation is attributed to.
 func docFeatSuffix(feat []string, evHaz []string) string {
+	if has(evHaz, "line-reversal") {
+		return "+line-reversal"
+	}
 	for _, f := range []string{"vb-origin", "aspect", "evenodd-differs"} {
 		if has(feat, f) {
 			return "+" + f
 		}
-	}
-	if has(evHaz, "line-reversal") {
-		return "+line-reversal"
 	}
 	return ""
 }
@@ -235,6 +238,21 @@ func featOf(sc *Scenario, e *Event) []string {
 		return e.Haz
 	}
 	return sc.Feat
+}
+
+// vertexSet: the vertices of a line / polyline / polygon element in its user space (nil for other kinds).
+func vertexSet(e *Elem) map[[2]float64]bool {
+	switch e.Kind {
+	case "line":
+		return map[[2]float64]bool{{float64(e.Geo[0]), float64(e.Geo[1])}: true, {float64(e.Geo[2]), float64(e.Geo[3])}: true}
+	case "polyline", "polygon":
+		m := map[[2]float64]bool{}
+		for _, p := range e.Pts {
+			m[[2]float64{float64(p[0]), float64(p[1])}] = true
+		}
+		return m
+	}
+	return nil
 }
 
 func cellsSig(prefix, kind, suffix string) string {
@@ -352,19 +370,35 @@ func compare(sc *Scenario, c *canvas.Canvas, prefix string) (ms []core.Mismatch)
 	if note != "" {
 		return append(ms, core.Mismatch{Signature: prefix + note, Detail: note})
 	}
-	// alignment. A shape element paints at most a fill and a stroke, and the canvas records them in one layer; so the paints are
-	// grouped (expected: by element, observed: by layer) and the groups are paired order-preservingly with the highest score,
-	// where a pair of groups scores 1, plus for every kind of paint present on both sides 8 if the regions agree on every decided
-	// sample and the expectation has painted samples (2 if it decides none), plus 3 for equal colours. Paired groups are compared
-	// paint by paint; what stays unpaired is a missing / an extra paint.
+	// alignment. A shape element paints at most a fill and a stroke, and the canvas records them in one layer. Every shape element
+	// of the scenario (painted or not) is a group with its expected paints and the decided cells of its outline; every recorded layer
+	// is a group with its observed paints. Groups are paired order-preservingly with the highest score: 7 (0 for an element without paints), plus up to 16 for the
+	// agreement of the layer's outline with the element's outline cells (graded, see below), plus 3 for every paint kind
+	// present on both sides with equal colours. Paired groups are compared paint by paint; unpaired paints are missing / extra.
 	exp := sc.Events
-	var eg, og [][]int
-	for i := range exp {
-		if i > 0 && exp[i].El == exp[i-1].El {
-			eg[len(eg)-1] = append(eg[len(eg)-1], i)
-		} else {
-			eg = append(eg, []int{i})
+	type egroup struct {
+		el     int
+		paints []int
+		geo    *Event
+		haz    []string
+	}
+	var eg []egroup
+	var og [][]int
+	for si := range sc.Shapes {
+		sh := &sc.Shapes[si]
+		g := egroup{el: sh.El, haz: sh.Haz}
+		for i := range exp {
+			if exp[i].El == sh.El {
+				g.paints = append(g.paints, i)
+				if exp[i].Kind == "fill" && exp[i].Info.Rule == 0 {
+					g.geo = &exp[i]
+				}
+			}
 		}
+		if g.geo == nil && len(sh.FP) > 0 {
+			g.geo = &sh.FP[0]
+		}
+		eg = append(eg, g)
 	}
 	for j := range obs {
 		if j > 0 && obs[j].layer == obs[j-1].layer {
@@ -374,29 +408,20 @@ func compare(sc *Scenario, c *canvas.Canvas, prefix string) (ms []core.Mismatch)
 		}
 	}
 	n, m := len(eg), len(og)
-	if n != m && len(sc.Haz) > 0 {
-		// the number of painting elements differs: which layer belongs to which element is then uncertain, so the
+	painting := 0
+	for _, g := range eg {
+		if len(g.paints) > 0 {
+			painting++
+		}
+	}
+	if painting != m && len(sc.Haz) > 0 {
+		// the number of painting elements differs: which layer belongs to which element is less certain, so the
 		// order-sensitivity features of the whole document apply to every paint
 		exp = append([]Event(nil), exp...)
 		for i := range exp {
 			exp[i].Haz = append(append([]string(nil), exp[i].Haz...), sc.Haz...)
 			exp[i].loose = true
 		}
-	}
-	pairScore := func(i, j int) int {
-		sc0 := 0
-		if obs[j].note == "" && obs[j].invOK {
-			if bad, _, _, _ := cellDiff(&exp[i], &obs[j], c.W, c.H); bad == 0 {
-				sc0 = 8
-				if exp[i].Opt {
-					sc0 = 2
-				}
-			}
-		}
-		if obs[j].rgba == exp[i].RGBA {
-			sc0 += 3
-		}
-		return sc0
 	}
 	// same: indices of the paints of two groups that correspond (same kind; round trip with a single paint each: any kind)
 	same := func(a, b []int) (pairs [][2]int) {
@@ -416,9 +441,96 @@ func compare(sc *Scenario, c *canvas.Canvas, prefix string) (ms []core.Mismatch)
 	for a := range eg {
 		score[a] = make([]int, m)
 		for b := range og {
-			v := 1
-			for _, p := range same(eg[a], og[b]) {
-				v += pairScore(p[0], p[1])
+			v := 7
+			if len(eg[a].paints) == 0 {
+				v = 0 // an element that should paint nothing is paired with a layer only on the strength of its outline
+			}
+			o := obs[og[b][0]]
+			if eg[a].geo != nil && (o.invOK || sc.Doc != nil) {
+				// graded agreement of the layer's outline with the element's outline cells: 16 * (share of the expected-in samples
+				// that lie inside the outline - share of the expected-out samples that do), 2 if nothing is decided in and nothing differs.
+				// Documents: the outline is compared in the element's own user space (the recorded path before its matrix, shifted by
+				// the element's x,y / cx,cy when the library draws the shape at the origin), so the pairing does not depend on the
+				// viewport mapping or on the transforms. Round trip: in canvas space (the writer bakes the view into the coordinates).
+				g := eg[a].geo
+				nIn, nOut := 0, 0
+				for _, v := range g.Cells {
+					if v == 1 {
+						nIn++
+					} else if v == 0 {
+						nOut++
+					}
+				}
+				grade := func(bad, inMiss, outHit int) int {
+					if nIn == 0 {
+						if bad == 0 {
+							return 2
+						}
+						return 0
+					}
+					f := float64(nIn-inMiss) / float64(nIn)
+					if nOut > 0 {
+						f -= float64(outHit) / float64(nOut)
+					}
+					if f > 0 {
+						return int(16*f + 0.5)
+					}
+					return 0
+				}
+				if sc.Doc != nil {
+					offs := [][2]float64{{0, 0}}
+					if e := sc.Doc.Es[eg[a].el-1]; len(e.Geo) >= 2 {
+						offs = append(offs, [2]float64{float64(e.Geo[0]), float64(e.Geo[1])})
+					}
+					bestG := 0
+					for _, off := range offs {
+						bad, inMiss, outHit := 0, 0, 0
+						for k, cv := range g.Cells {
+							if cv == 2 {
+								continue
+							}
+							q := oracle.Pt{X: float64(g.GX+g.Step*(k%g.NX))/8 - off[0], Y: float64(g.GY+g.Step*(k/g.NX))/8 - off[1]}
+							if (oracle.Winding(o.cs, q) != 0) != (cv == 1) {
+								bad++
+								if cv == 1 {
+									inMiss++
+								} else {
+									outHit++
+								}
+							}
+						}
+						bestG = max(bestG, grade(bad, inMiss, outHit))
+					}
+					if nIn == 0 {
+						// an outline without area (line, collinear polygon) has no cells to recognise it by: recognise it by its vertices
+						if pts := vertexSet(&sc.Doc.Es[eg[a].el-1]); pts != nil {
+							bestG = 0
+							all, cnt := true, 0
+							for _, cc := range o.cs {
+								for _, q := range cc.Pts {
+									cnt++
+									if !pts[[2]float64{q.X, q.Y}] {
+										all = false
+									}
+								}
+							}
+							if all && cnt >= 2 {
+								bestG = 16
+							}
+						}
+					}
+					v += bestG
+				} else {
+					outline := o
+					outline.kind, outline.rule, outline.note = "fill", canvas.NonZero, ""
+					bad, _, inMiss, outHit := cellDiff(g, &outline, c.W, c.H)
+					v += grade(bad, inMiss, outHit)
+				}
+			}
+			for _, p := range same(eg[a].paints, og[b]) {
+				if obs[p[1]].rgba == exp[p[0]].RGBA {
+					v += 3
+				}
 			}
 			score[a][b] = v
 		}
@@ -432,6 +544,9 @@ func compare(sc *Scenario, c *canvas.Canvas, prefix string) (ms []core.Mismatch)
 			best[i][j] = max(best[i+1][j], best[i][j+1], best[i+1][j+1]+score[i][j])
 		}
 	}
+	if os.Getenv("VC19_DEBUG") != "" {
+		fmt.Fprintln(os.Stderr, "groups", n, m, "score", score, "best", best)
+	}
 	missing := func(i int) {
 		e := &exp[i]
 		if e.Opt { // a paint without decided painted samples may be absent
@@ -444,7 +559,7 @@ func compare(sc *Scenario, c *canvas.Canvas, prefix string) (ms []core.Mismatch)
 		ms = append(ms, core.Mismatch{Signature: missingSig(precedenceSig(prefix, prop, e.Haz, true)),
 			Detail: fmt.Sprintf("expected paint missing: el=%d %s %s %v (order-sensitive sources: %v)", e.El, e.Kind, e.Col, e.RGBA, hazKinds(e.Haz, prop))})
 	}
-	extra := func(j int, haz []string) {
+	extra := func(j int, haz []string, el int) {
 		o := &obs[j]
 		sig := prefix + o.kind + "-extra"
 		if hk := hazKinds(haz, o.kind); len(hk) == 1 {
@@ -452,39 +567,39 @@ func compare(sc *Scenario, c *canvas.Canvas, prefix string) (ms []core.Mismatch)
 		} else if len(hk) > 1 {
 			sig = prefix + "style-precedence+multiple"
 		}
-		ms = append(ms, core.Mismatch{Signature: sig, Detail: fmt.Sprintf("unexpected paint: %s %v of path %s (order-sensitive sources for %s: %v)", o.kind, o.rgba, o.path, o.kind, hazKinds(haz, o.kind))})
+		ms = append(ms, core.Mismatch{Signature: sig, Detail: fmt.Sprintf("unexpected paint (paired with el=%d): %s %v of path %s (order-sensitive sources for %s: %v)", el, o.kind, o.rgba, o.path, o.kind, hazKinds(haz, o.kind))})
 	}
 	i, j := 0, 0
 	for i < n || j < m {
-		if i < n && j < m && best[i][j] == best[i+1][j+1]+score[i][j] {
-			ps := same(eg[i], og[j])
+		if i < n && j < m && best[i][j] == best[i+1][j+1]+score[i][j] && (len(eg[i].paints) > 0 || best[i][j] > best[i+1][j]) {
+			ps := same(eg[i].paints, og[j])
 			usedE, usedO := map[int]bool{}, map[int]bool{}
 			for _, p := range ps {
 				usedE[p[0]], usedO[p[1]] = true, true
 				ms = append(ms, comparePair(sc, &exp[p[0]], &obs[p[1]], c.W, c.H, prefix)...)
 			}
-			var elHaz []string
-			for _, x := range eg[i] {
-				elHaz = append(elHaz, exp[x].Haz...)
+			for _, x := range eg[i].paints {
 				if !usedE[x] {
 					missing(x)
 				}
 			}
 			for _, y := range og[j] {
 				if !usedO[y] {
-					// an unexpected paint of this element: the features of the element's other paint do not cover this property,
-					// so the document's features decide (they include this element's)
-					extra(y, append(elHaz, sc.Haz...))
+					h := eg[i].haz
+					if painting != m {
+						h = append(append([]string(nil), h...), sc.Haz...)
+					}
+					extra(y, h, eg[i].el)
 				}
 			}
 			i, j = i+1, j+1
 		} else if j < m && (i == n || best[i][j] == best[i][j+1]) {
 			for _, y := range og[j] {
-				extra(y, sc.Haz)
+				extra(y, sc.Haz, 0)
 			}
 			j++
 		} else {
-			for _, x := range eg[i] {
+			for _, x := range eg[i].paints {
 				missing(x)
 			}
 			i++
